@@ -77,6 +77,33 @@ Theorem C14_optimal_check_always_true_for_ascii : forall cw alnum lbc custom_sp 
   forall t, Forall (fun c => c <> ESC) t -> refind_opt_b cw alnum lbc custom_sp o t = true.
 Proof. exact refind_opt_b_ascii_builtin. Qed.
 
+(* the hypothesis refind_b split into the property's own condition and a statement about the line-break oracle (audit: 'no word needs force-breaking' appeared in no theorem).  no_forced_b: every fragment, as found and split BEFORE break_words, fits the width on its own (so break_words is the identity).  local_b (o_nobreak o): with break_words switched off, every first-pass line, taken alone, is found again as exactly the fragments that were placed on it (last whitespace removed) and does not end in a space -- for the splitter 'none' a condition on the oracle's answers alone.  Together they give idempotence; IdemLocal's examples show that neither can be dropped from this form (a forced break of a word containing a space: ex_nobreak_needs_F; a non-local oracle: ex_local_fails_oracle) and that locality is stronger than refind_b (sufficient, not necessary). *)
+From TW Require Import IdemLocal.
+Theorem C14_from_locality_and_no_forced_break :
+  forall (cw : Chars.char -> BinNums.N) (alnum : Chars.char -> bool)
+           (lbc custom_sp : Chars.str -> list BinNums.N)
+           (ofit : OptFit.penalties -> list Word.word -> list BinNums.N -> option (list (list Word.word)))
+           (o : Wrap.options),
+         Wrap.o_alg o = Wrap.FirstFit ->
+         Pipeline.SplitterOK custom_sp ->
+         Idempotent.EmptyIndents o ->
+         Wrap.o_spl o <> Wrap.SplCustom ->
+         forall t r : Chars.str,
+         local_b cw alnum lbc custom_sp (o_nobreak o) t = true ->
+         no_forced_b cw alnum lbc custom_sp o t = true ->
+         Wrap.fill cw alnum lbc custom_sp ofit o t = Some r ->
+         Wrap.fill cw alnum lbc custom_sp ofit o r = Some r.
+Proof. exact (@fill_idem_local_nobreak). Qed.
+
+Theorem C14_locality_implies_check :
+  forall (cw : Chars.char -> BinNums.N) (alnum : Chars.char -> bool)
+           (lbc custom_sp : Chars.str -> list BinNums.N) (o : Wrap.options) (t : Chars.str),
+         Idempotent.EmptyIndents o ->
+         local_b cw alnum lbc custom_sp o t = true -> IdemUnicode.refind_b cw alnum lbc custom_sp o t = true.
+Proof. exact (@local_refind). Qed.
+
+Print Assumptions C14_from_locality_and_no_forced_break.
+Print Assumptions C14_locality_implies_check.
 Print Assumptions C14_optimal_fit_any_separator.
 Print Assumptions C14_optimal_check_always_true_for_ascii.
 Print Assumptions C14_any_separator.
